@@ -290,7 +290,7 @@ fn main() {
             let fams = props::families(&args.prop, args.tier, &args.variant);
             let fam = args.family.clone().unwrap_or_else(|| usage());
             let idx = args.idx.unwrap_or_else(|| usage());
-            std::process::exit(run_case(&args.prop, args.tier, &args.variant, &fams, &fam, idx));
+            std::process::exit(run_case_t(&args.prop, args.tier, &args.variant, &fams, &fam, idx, args.transcript));
         }
         "replay" => {
             let f = args.file.clone().unwrap_or_else(|| usage());
@@ -317,6 +317,10 @@ fn main() {
 }
 
 fn run_case(prop: &str, tier: Tier, variant: &str, fams: &[Family], fam: &str, idx: u64) -> i32 {
+    run_case_t(prop, tier, variant, fams, fam, idx, false)
+}
+
+fn run_case_t(prop: &str, tier: Tier, variant: &str, fams: &[Family], fam: &str, idx: u64, transcript: bool) -> i32 {
     let Some(f) = fams.iter().find(|f| f.name == fam) else {
         eprintln!("no family {fam}; have: {:?}", fams.iter().map(|f| &f.name).collect::<Vec<_>>());
         return 2;
@@ -327,12 +331,18 @@ fn run_case(prop: &str, tier: Tier, variant: &str, fams: &[Family], fam: &str, i
     }
     let hooks = props::worker_hooks(prop);
     let mut ctx = Ctx::new(prop, tier, variant);
-    ctx.verbose = true;
+    ctx.verbose = !transcript;
+    if transcript {
+        ctx.transcript = Some(digest::Transcript::new());
+    }
     ctx.cur_family = fam.to_string();
     ctx.cur_idx = idx;
     (hooks.before_case)();
     (f.run)(idx, &mut ctx);
     (hooks.after_case)(&mut ctx);
+    if let Some(t) = ctx.transcript.as_ref() {
+        println!("TRANSCRIPT {}", t.digest_hex());
+    }
     println!(
         "case {prop}/{fam}/{idx}: states={} calls={} outcomes={:?}",
         ctx.states, ctx.transitions, ctx.outcomes
